@@ -346,6 +346,45 @@ func scenarioC19(c *RunCtx) {
 			}
 		}
 	}
+	// The recorded generations of a trial rearranged in place (reversed or rotated: the same records in the same backing
+	// array) after its winner statistics were queried through the trial object itself, so whatever the accessor cached
+	// is warm. Only trials with exactly one solved generation: their winner is the same generation in every order.
+	if len(exp.Trials) > 0 && t.Chance("reorderAfterQuery", 1, 3) {
+		for ti := range exp.Trials {
+			tr := &exp.Trials[ti]
+			nSolved := 0
+			for gi := range tr.Generations {
+				if tr.Generations[gi].Solved {
+					nSolved++
+				}
+			}
+			if len(tr.Generations) < 2 || nSolved != 1 {
+				continue
+			}
+			c.Lib("Trial.WinnerStatistics", func() { tr.WinnerStatistics() })
+			how := "reversed"
+			if k := t.Draw("reorder.rotate", len(tr.Generations)); k == 0 {
+				for i, j := 0, len(tr.Generations)-1; i < j; i, j = i+1, j-1 {
+					tr.Generations[i], tr.Generations[j] = tr.Generations[j], tr.Generations[i]
+				}
+			} else {
+				how = fmt.Sprintf("rotated by %d", k)
+				rot := append(append(experiment.Generations(nil), tr.Generations[k:]...), tr.Generations[:k]...)
+				copy(tr.Generations, rot)
+			}
+			var wn, wg, we, wd int
+			c.Lib("Trial.WinnerStatistics", func() { wn, wg, we, wd = tr.WinnerStatistics() })
+			for gi := range tr.Generations {
+				if g := &tr.Generations[gi]; g.Solved && (wn != g.WinnerNodes || wg != g.WinnerGenes || we != g.WinnerEvals || wd != g.Diversity) {
+					c.Fail("aggregate:Trial.WinnerStatistics", "trial %d: after its generations were %s in place (following an earlier query of the same trial object) WinnerStatistics() = (%d, %d, %d, %d); its only solved generation holds (%d, %d, %d, %d)\n%s", ti, how, wn, wg, we, wd, g.WinnerNodes, g.WinnerGenes, g.WinnerEvals, g.Diversity, ctx())
+				}
+			}
+			c.Count("probe.trial.rearranged_after_query")
+		}
+		checkAggregates(c, exp, func() string {
+			return ctx() + " (generations of single-winner trials rearranged in place after a query)"
+		})
+	}
 	// One trial record, saved with Trial.Encode and read with Trial.Decode into a trial object that was used before (it
 	// holds another trial, solved with other winner sizes, whose winner statistics were queried): same rule.
 	if len(exp.Trials) > 0 && t.Chance("reusedTrial", 1, 3) {
